@@ -10,11 +10,10 @@ def main(tier, replay=None):
     exe = compile_harness(src, os.path.join(rd, "c06_blast"), [os.path.join(VERIF, "seq/c06_blast.c")],
                           link_target="qmail-remote")
     if tier == "quick":
-        runs = [("alpha{CR,LF,.,a}", "0 10 7")]
+        runs = [("alpha{CR,LF,.,a}", "0 10 7"), ("alpha{LF,.,0xFF,a,CR}", "2 8 6")]
     else:
-        runs = [("alpha{CR,LF,.,a}", "0 12 9"), ("alpha{CR,LF,.,a,R}", "1 10 7")]
-    for fam, args in runs:
-        res.run_harness("%s %s" % (exe, args), family=fam)
+        runs = [("alpha{CR,LF,.,a}", "0 12 9"), ("alpha{CR,LF,.,a,R}", "1 10 7"), ("alpha{LF,.,0xFF,a,CR}", "2 10 7")]
+    res.run_parallel([("%s %s" % (exe, args), fam) for fam, args in runs])
     res.rule = ("every byte string over the alphabet up to the length bound is fed to the real blast() of "
                 "qmail-remote.c (whole, in every chunking of reads up to the chunking bound, and with a read error "
                 "at every offset); non-trivial = contains a CR or a '.' at a line start (the cases where "
